@@ -336,7 +336,9 @@ func c10OverrideNamesConstant(m *smodel.Model) bool {
 			return
 		}
 		for _, f := range target.Type.Fields {
-			if _, has := obj[f.Name]; has && f.Type.Const != nil {
+			// a single-member enum is a constant for CUE
+			rt := m.Resolve(f.Type)
+			if _, has := obj[f.Name]; has && (f.Type.Const != nil || (rt.Kind == smodel.KEnum && len(rt.Members) < 2)) {
 				found = true
 			}
 		}
